@@ -5,46 +5,38 @@ register(
     "C06",
     lean_modules=["GtModel.Model.Render", "GtModel.Props.C06"],
     theorems=[
+        # the property
         "GtModel.C06.project_from",
         "GtModel.C06.project_to",
         "GtModel.C06.marks_iff",
         "GtModel.C06.project_from_docs",
         "GtModel.C06.project_to_docs",
         "GtModel.C06.marks_iff_docs",
+        "GtModel.C06.project_from_tokens",
+        "GtModel.C06.project_to_tokens",
+        # what the relation ValPerm can and cannot identify
+        "GtModel.Render.ValPerm.toks_perm",
+        "GtModel.Render.ValPerm.atom_eq",
+        # key lemmas
         "GtModel.C06.script_wellformed",
         "GtModel.C06.project_from_wf",
         "GtModel.C06.project_to_wf",
-        "GtModel.C06.projection_is_value",
-        "GtModel.C06.project_from_checked",
-        "GtModel.C06.project_to_checked",
-        "GtModel.C06.printJson_toks",
-        "GtModel.C06.no_marks_of_zero_cost_leaf",
-        "GtModel.C06.marks_of_change",
-        "GtModel.Render.wfB_sound",
-        "GtModel.Render.wf_edits",
-        "GtModel.Render.positive_cost_shows",
-        "GtModel.Render.zero_cost_is_match",
-        "GtModel.Render.render_spec",
-        "GtModel.Render.main",
+        "GtModel.Render.eq_valPerm",
         "GtModel.Render.seq_lemma",
-        "GtModel.Render.step_facts",
-        "GtModel.Render.proj_strOut",
-        "GtModel.Render.tokens_quote",
-        "GtModel.Render.closedT_jsonText",
-        "GtModel.build_litOK",
     ],
     streams=["render"],
     assumptions=[
         "objects of the compared documents have distinct keys (Doc.distinctKeys / Tree.KeysDistinct; what json parsers "
-        "deliver); the _checked variants need no such hypothesis but the executable script check instead",
+        "deliver)",
         "float leaves carry Python's repr as an opaque, non-empty token that consists of literal characters "
         "(litOK / Doc.floatsOK; evaluated by the driver on every stream case); non-finite floats are not JSON",
-        "the projections equal the documents up to ValSim: order of the members of objects (pairs are printed in edit "
-        "order) and node-equal subtrees; lists are exact",
+        "the statement is about the colour (ANSI-mark) rendering and uses a JSON tokenizer, not a full parser: the "
+        "projections have the token tree of the documents up to ValPerm = the order of the members of objects (pairs "
+        "are printed in edit order); lists are element-wise, atoms identical",
     ],
     trusted=[
-        "render stream: model output (characters, marks, script, script check) == real JSONFormatter output after mark "
-        "recovery and whitespace canonicalisation on every generated case",
+        "render stream: model output (characters, marks, script, executable script check) == real JSONFormatter output "
+        "after mark recovery and whitespace canonicalisation on every generated case",
         "mark recovery from the ANSI/combining-mark output (harness/streams/render.py: recover, drop_ws)",
         "the assignment solver's answers enter as an oracle; theorems hold for every oracle",
         "L2 proofs C01 (index accounting), C02 (zero_cost_iff_eq, eq_iff_dataEq), C03 (reported_eq_sum)",
